@@ -235,6 +235,36 @@ static int mode_matrix(int cases, int max_nr, int max_nt)
     return 0;
 }
 
+// ---------------------------------------------------------------------------------------------- level caches
+// every array of the LevelCache of every level of a chain (fresh constructor on level 0, sampling constructor below), for all
+// four cache-flag pairs; arrays in the library's node numbering
+static int mode_cache(int cases, int max_nr, int max_nt)
+{
+    Rng rng(seed_from_env());
+    for (int c = 0; c < cases; c++) {
+        int nr = pick_nr(rng, max_nr), nt = pick_nt(rng, max_nt);
+        if (nt % 4 != 0) nt = 8;
+        if (nr < 9 && rng.coin(0.7)) nr = 9;
+        Problem p = make_problem(rng, nr, nt);
+        std::optional<double> split = rng.coin(0.4) ? std::optional<double>(rng.uniform(p.R0, p.Rmax)) : std::nullopt;
+        for (int flags = 0; flags < 4; flags++) {
+            bool cc = flags & 1, cg = flags & 2;
+            Chain ch = make_chain(p, 3, cc, cg, split);
+            if (flags == 0) emit_level("LV", p, ch.levels[0]->grid(), p.dirbc);
+            for (size_t d = 0; d < ch.levels.size(); d++) {
+                const PolarGrid& g = ch.levels[d]->grid();
+                const LevelCache& lc = ch.levels[d]->levelCache();
+                auto dump = [](const auto& v) { std::vector<double> w(v.begin(), v.end()); return w.empty() ? std::string("-") : hexvec(w); };
+                printf("CA lvl=%zu cc=%d cg=%d nr=%d nt=%d nc=%d radii=%s angles=%s sin=%s cos=%s alpha=%s beta=%s arr=%s att=%s art=%s det=%s\n", d, (int)cc, (int)cg, g.nr(), g.ntheta(),
+                       g.numberSmootherCircles(), hexvec(g.radii()).c_str(), hexvec(g.angles()).c_str(), dump(lc.sin_theta()).c_str(), dump(lc.cos_theta()).c_str(),
+                       dump(lc.coeff_alpha()).c_str(), dump(lc.coeff_beta()).c_str(), dump(lc.arr()).c_str(), dump(lc.att()).c_str(), dump(lc.art()).c_str(), dump(lc.detDF()).c_str());
+            }
+        }
+    }
+    printf("end\n");
+    return 0;
+}
+
 int main(int argc, char** argv)
 {
     std::string mode = argc > 1 ? argv[1] : "";
@@ -246,6 +276,7 @@ int main(int argc, char** argv)
     if (mode == "exsmooth") return mode_smooth(a, b, c, true);
     if (mode == "direct") return mode_direct(a, b, c);
     if (mode == "matrix") return mode_matrix(a, b, c);
+    if (mode == "cache") return mode_cache(a, b, c);
     fprintf(stderr, "usage: h_ops residual ...\n");
     return 2;
 }
